@@ -53,6 +53,9 @@ type Base struct {
 	// AfterOp, if set, is called after every operation that completed on the
 	// inner store (before a CrashAfter/ErrAfter action takes effect).
 	AfterOp func(op string)
+	// Bypass, if set, lets matching appends go straight to the inner store:
+	// no hook, no counters (events the harness itself adds to the traffic).
+	Bypass func(e *eventbus.Event) bool
 	// OnInnerError, if set, is told about errors returned by the inner store
 	// itself (not injected ones).
 	OnInnerError func(op string, err error)
@@ -165,6 +168,9 @@ func (b *Base) post(a Action, op string) error {
 }
 
 func (b *Base) Append(ctx context.Context, e *eventbus.Event) (eventbus.Offset, error) {
+	if b.Bypass != nil && b.Bypass(e) {
+		return b.Inner.Append(ctx, e)
+	}
 	b.mu.Lock()
 	b.Appends++
 	b.mu.Unlock()
